@@ -70,6 +70,11 @@ func genC20(r *gen.Rand) *C20Case {
 	put("eq=ual.yaml", map[string]any{"eq": 1})
 	put("semi;colon.json", map[string]any{"semi": 1})
 	put("-dash.yaml", map[string]any{"dash": 1})
+	// names holding what a formatting or pattern function would interpret
+	put("job-%d.yaml", map[string]any{"job": "%d", "shards": 16})
+	put("100%.json", map[string]any{"percent": 100})
+	put("tmpl-{{x}}.yaml", map[string]any{"braces": 1})
+	put("star*.yaml", map[string]any{"star": 1})
 	put("p.yaml", map[string]any{"base": true})
 	put("p.q.yaml", map[string]any{"top": 1}) // its parent p.yaml is the target of some faults
 	// a file argument that is a symbolic link to a layer (it inherits from its target's name)
@@ -89,7 +94,8 @@ func genC20(r *gen.Rand) *C20Case {
 	raw("plain", "words\n")
 	// argument vector
 	good := []string{"a.yaml", "a.b.yaml", "c.json", "d/e.yaml", "t.toml", "./a.b.yaml", "d/../c.json", "./d/e.yaml", "p.q.yaml", "p.q.json", "big.yaml", "big.json",
-		"d/c.json", "d2/e.yaml", "d2/e.json", "d/c.yaml", "d2/a.b.yaml", "x,y.yaml", "x,y.json", "sp ace.yaml", "uni-é.json", "uni-é.yaml", "eq=ual.yaml", "semi;colon.json", "-dash.yaml", "lnk.yaml", "lnk.json", "d/up.json", "d/up.yaml", "d/lp.yaml", "d/lp.json", "withp.yaml", "dlink/e.yaml", "dlink/lp.yaml"}
+		"d/c.json", "d2/e.yaml", "d2/e.json", "d/c.yaml", "d2/a.b.yaml", "x,y.yaml", "x,y.json", "sp ace.yaml", "uni-é.json", "uni-é.yaml", "eq=ual.yaml", "semi;colon.json", "-dash.yaml", "lnk.yaml", "lnk.json", "d/up.json", "d/up.yaml", "d/lp.yaml", "d/lp.json", "withp.yaml", "dlink/e.yaml", "dlink/lp.yaml",
+		"job-%d.yaml", "job-%d.json", "100%.json", "100%.yaml", "tmpl-{{x}}.yaml", "star*.yaml", "star*.json"}
 	virtual := []string{"a.b.json", "c.yaml", "a.toml", "d/e.json", "c.yml", "a.b.jsonl"}
 	failing := []string{"bad.yaml", "bad2.json", "broken.yaml", "bad.json", "bad3.yaml", "bad3.json", "d2/lq.yaml"}
 	pass := []string{"apply", "get", "-f", "-v", "--dry-run", "--opt=value", "--file=a.b.yaml", "-o=c.json", "notes.txt", "x.ini", "plain",
